@@ -11,6 +11,7 @@ fields varying with the base instance. Oracle: the constructor or to_knx() raise
 from __future__ import annotations
 
 import dataclasses
+import enum
 import inspect
 import random
 
@@ -250,7 +251,8 @@ def check_case(ctx, case: dict) -> str:
 def _members(x) -> list[str] | None:
     if dataclasses.is_dataclass(x) and not isinstance(x, type):
         return [f.name for f in dataclasses.fields(x)]
-    if type(x).__eq__ is object.__eq__ and not isinstance(x, (int, str, bytes)):
+    if (type(x).__eq__ is object.__eq__ and not isinstance(x, (int, str, bytes, enum.Enum, type))
+            and type(x).__module__.startswith("xknx.")):
         slots = getattr(type(x), "__slots__", None)
         return list(slots) if slots else (list(vars(x)) if hasattr(x, "__dict__") else [])
     return None
@@ -269,7 +271,7 @@ def struct_eq(a, b) -> bool:
 
 
 def no_eq_members(o) -> list[str]:
-    return sorted({type(getattr(o, n)).__name__ for n in (_members(o) or []) if type(getattr(o, n)).__eq__ is object.__eq__})
+    return sorted({type(getattr(o, n)).__name__ for n in (_members(o) or []) if _members(getattr(o, n)) is not None and not dataclasses.is_dataclass(getattr(o, n))})
 
 
 def describe(x) -> str:
